@@ -66,6 +66,11 @@ CLAIMED = {
    note="Trusted: state-vector universe (definitions of the vanilla gates), operator table of the oracle. Vanilla flavour only (NV decompositions belong to C08). set_qubit_state threshold 1-1e-6, others 1-1e-9.",
    technique="deterministic simulation: forced measurement branches and flush placement over a state-vector backend + ideal-operator oracle",
    ref="§5 C20"),
+ "C08": dict(
+   text="Seeded twin simulation: a generated vanilla subroutine of the kind the SDK emits (gates preceded by the set of their qubit registers, inside LOOP / IF_EXIT shapes, with measurements feeding branches and arrays and optionally an exit label just past the end) is executed as is on a vanilla executor and, after NVSubroutineTranspiler, on an NV executor -- same injected input state, one shared stream of collapse draws; at the end classical memory must be identical, the allocated qubits' state equal up to global phase, and every crot_* must have the electron as control.",
+   note="Trusted: state-vector universe (vanilla and NV instruction semantics written from definitions; validated against each other on CNOT/CPHASE/MOV), generator. Virtual qubit 0 stays allocated; Q registers and C15 are excluded from the classical comparison; two recorded findings are masked in half of the runs.",
+   technique="deterministic simulation: vanilla/NV twin executors under one seeded stream of collapse draws + state-vector comparison",
+   ref="§5 C08"),
 }
 
 PENDING = {p: 'check not built yet in this round (simulation target per DESIGN §5; will be claimed when its rig exists)' for p in ['C05','C06','C08','C09','C10','C11','C12','C13','C14','C18','C20']}
